@@ -531,8 +531,10 @@ func registerLate(n int) {
 	defer lateMu.Unlock()
 	g := lint.GlobalRegistry()
 	for ; lateCount < n && lateCount < len(lateKinds); lateCount++ {
-		useRegistryFully(g)
+		// (the refused ones first: the registration that succeeds must follow a use of the registry with nothing in
+		// between - a refusal may well drop what an accessor keeps, and with it the evidence)
 		refusedRegistrations(lateCount)
+		useRegistryFully(g)
 		// sources chosen so that kinds share a source that no certificate lint of a small view need have
 		// (an OCSP lint citing the BRs next to the BR CRL lints, a CRL lint citing RFC 6960 next to the OCSP lint)
 		md := lint.LintMetadata{Name: lateName(lateCount), Description: "late", Source: []lint.LintSource{lint.CABFBaselineRequirements, lint.RFC6960, lint.Community, lint.RFC5280, lint.AppleRootStorePolicy, lint.MozillaRootStorePolicy, "", "", ""}[lateCount%9]} // the last three carry no source at all
